@@ -56,7 +56,8 @@ func SafeMul[T Integer](x T, y T) (T, error) {
 
 	result := x * y
 
-	if result/x != y {
+	// both divisions are needed: -1 * MinInt wraps to MinInt and MinInt / -1 wraps back to MinInt.
+	if result/x != y || result/y != x {
 		return 0, ierrors.WithMessagef(ErrIntegerOverflow, "%d * %d", x, y)
 	}
 
